@@ -7,7 +7,9 @@ import (
 	"go/types"
 	"math/big"
 	"sort"
+	"os"
 	"strings"
+	"time"
 
 	"golang.org/x/tools/go/ssa"
 )
@@ -81,6 +83,7 @@ type Interp struct {
 	symRefs   map[*Pointer]symRef
 	deferCtx  []*frame
 	observed  []obsRec
+	initLimit int
 }
 
 type obsRec struct {
@@ -263,6 +266,7 @@ func (in *Interp) ensureInit(pkg *ssa.Package) {
 		return
 	}
 	in.initMode++
+	t0init := time.Now()
 	savedFrame := in.curFrame
 	savedSteps := in.steps
 	func() {
@@ -272,7 +276,7 @@ func (in *Interp) ensureInit(pkg *ssa.Package) {
 				case *pathAbort, *goPanicV:
 					// tolerated: leave remaining globals as they are
 				default:
-					panic(r)
+					in.events = append(in.events, fmt.Sprintf("init-engine-limit %s: %v", pkg.Pkg.Path(), r))
 				}
 			}
 		}()
@@ -280,6 +284,9 @@ func (in *Interp) ensureInit(pkg *ssa.Package) {
 	}()
 	in.initMode--
 	in.curFrame = savedFrame
+	if d := time.Since(t0init); d > 300*time.Millisecond && os.Getenv("GOSYM_DEBUG") != "" {
+		fmt.Fprintf(os.Stderr, "init %s: %d steps, %s\n", pkg.Pkg.Path(), in.steps-savedSteps, d)
+	}
 	in.steps = savedSteps
 }
 
@@ -363,6 +370,10 @@ func (in *Interp) callFunction(fn *ssa.Function, args []Value, env []Value) Valu
 	}
 	if fn.Blocks == nil {
 		in.unsupported("function without body: " + name)
+	}
+	if fn.Synthetic == "package initializer" {
+		// imported packages are initialised lazily, on first access to one of their globals
+		return nil
 	}
 	in.callLog[name]++
 	return in.callSSA(fn, args, env, false)
@@ -473,6 +484,9 @@ func (fr *frame) runBlock() {
 		if in.steps > in.run.cfg.MaxSteps {
 			in.abort("budget", "step budget exceeded")
 		}
+		if in.initMode > 0 && !fr.initTop && in.steps > in.initLimit {
+			in.abort("budget", "package-init budget exceeded (initialiser left as poison)")
+		}
 		if fr.initTop {
 			fr.execTolerant(instr)
 		} else {
@@ -496,6 +510,13 @@ func (fr *frame) execTolerant(instr ssa.Instruction) {
 	in := fr.in
 	defer func() {
 		if r := recover(); r != nil {
+			if _, isVal := instr.(ssa.Value); !isVal {
+				switch instr.(type) {
+				case *ssa.If, *ssa.Return, *ssa.Panic, *ssa.Jump:
+					// control flow cannot be poisoned: give up on the rest of this initialiser
+					panic(&pathAbort{"unsupported", "package initialiser control flow depends on an unsupported value"})
+				}
+			}
 			switch x := r.(type) {
 			case *pathAbort:
 				if v, ok := instr.(ssa.Value); ok {
@@ -508,12 +529,18 @@ func (fr *frame) execTolerant(instr ssa.Instruction) {
 				}
 				in.curFrame = fr
 			default:
-				panic(r)
+				// engine limitation hit while running arbitrary initialiser code: poison the result
+				if v, ok := instr.(ssa.Value); ok {
+					fr.env[v] = &PoisonV{fmt.Sprint("engine limitation in init: ", r)}
+				}
+				in.events = append(in.events, fmt.Sprintf("init-engine-limit %s: %v", fr.fn.Pkg.Pkg.Path(), r))
+				in.curFrame = fr
 			}
 		}
 	}()
-	saveDepth := in.depth
-	defer func() { in.depth = saveDepth }()
+	saveDepth, saveLimit := in.depth, in.initLimit
+	defer func() { in.depth, in.initLimit = saveDepth, saveLimit }()
+	in.initLimit = in.steps + in.run.cfg.InitBudget
 	fr.exec(instr)
 }
 
